@@ -640,15 +640,25 @@ fn run(db: &dyn Db, key: String, sel: FnSel, hs0: Vec<Id>, is0: Vec<(i64, Id)>) 
         };
         match nd.op.as_str() {
             "ret" => {
-                let v = Val::new(nd.a, created.clone()).with_is(created_is.clone());
-                evk!(key, "e": "be", "v": v.v, "hs": created.iter().map(|i| idstr(*i)).collect::<Vec<_>>(),
-                    "is": created_is.iter().map(|(k, i)| format!("I{k}@{}", idstr(*i))).collect::<Vec<_>>(), "s": v.serial);
+                let (xh, xi) = if def.fwd != 0 && matches!(sel, FnSel::F(_)) {
+                    (hs.clone(), is.clone())
+                } else {
+                    (created.clone(), created_is.clone())
+                };
+                let v = Val::new(nd.a, xh.clone()).with_is(xi.clone());
+                evk!(key, "e": "be", "v": v.v, "hs": xh.iter().map(|i| idstr(*i)).collect::<Vec<_>>(),
+                    "is": xi.iter().map(|(k, i)| format!("I{k}@{}", idstr(*i))).collect::<Vec<_>>(), "s": v.serial);
                 return v;
             }
             "retr" => {
-                let v = Val::new(r, created.clone()).with_is(created_is.clone());
-                evk!(key, "e": "be", "v": v.v, "hs": created.iter().map(|i| idstr(*i)).collect::<Vec<_>>(),
-                    "is": created_is.iter().map(|(k, i)| format!("I{k}@{}", idstr(*i))).collect::<Vec<_>>(), "s": v.serial);
+                let (xh, xi) = if def.fwd != 0 && matches!(sel, FnSel::F(_)) {
+                    (hs.clone(), is.clone())
+                } else {
+                    (created.clone(), created_is.clone())
+                };
+                let v = Val::new(r, xh.clone()).with_is(xi.clone());
+                evk!(key, "e": "be", "v": v.v, "hs": xh.iter().map(|i| idstr(*i)).collect::<Vec<_>>(),
+                    "is": xi.iter().map(|(k, i)| format!("I{k}@{}", idstr(*i))).collect::<Vec<_>>(), "s": v.serial);
                 return v;
             }
             "in" => {
